@@ -48,3 +48,19 @@ package deps
 //@   ensures[within-own-bounds] moves("own-bounds")
 //@   ensures[follows-its-dependencies] moves("deps-order")
 //@   ensures[queries-change-nothing] moves("queries-change-nothing")
+
+// code_layout(l): the code model the real NewCode builds for the l-th
+// multi-block layout of the corpus (blocks separated by address gaps).
+// blockmove("rotated", from, to): the block order is the old one rotated
+// between from and to, and every block reports its position as index;
+// blockmove("nothing-else", ...): no instruction changed its address or its
+// place in its block, no block its begin, the address-ordered block list is
+// untouched and Code.Address still finds every instruction's block.
+
+//@ func (*Code).Move
+//@   enum l in LAYOUTS, from in BLKIDX, to in BLKIDX
+//@   input:c code_layout(l)
+//@   ensures[block-move-error-iff-invalid-position] (result != nil) == !blockmove_valid(from, to)
+//@   ensures[rejected-block-move-changes-nothing] result != nil ==> heap_unchanged()
+//@   ensures[block-order-rotated] result == nil ==> blockmove("rotated", from, to)
+//@   ensures[block-move-changes-no-address] result == nil ==> blockmove("nothing-else", from, to)
